@@ -68,7 +68,7 @@ fn containers(seed: u64, tier: Tier) -> Vec<(String, Logical)> {
             k += 1;
             let hint = if comp == Comp::None { Hint::No } else { Hint::Yes };
             let n = (2 * p as usize).max(2) + rng.range(0, 2) as usize;
-            let contents = (0..n)
+            let contents: Vec<ContentSpec> = (0..n)
                 .map(|i| {
                     let len = rng.range(9, 120) as usize;
                     let flavor = *rng.pick(&[Flavor::Constant, Flavor::Text, Flavor::Random]);
@@ -80,6 +80,28 @@ fn containers(seed: u64, tier: Tier) -> Vec<(String, Logical)> {
                     }
                 })
                 .collect();
+            // every other container is also built as one concatenated file: its packs are found by
+            // uuid inside the file at hand, whatever sits at their recorded locations
+            if k % 2 == 0 || p == 2 {
+                out.push((
+                    format!("c11-embedded-p{p}-{}", comp.name()),
+                    Logical {
+                        comp,
+                        packaging: Packaging::Concat,
+                        n_packs: p,
+                        contents: contents_clone(&contents),
+                        schema: SchemaSpec {
+                            key_prefix: 2,
+                            store: StoreKind::Plain,
+                            variants: k % 2 == 0,
+                            key_pad: 0,
+                        },
+                        dedup: false,
+                        aux_seed: rng.next_u64(),
+                        opts: Default::default(),
+                    },
+                ));
+            }
             out.push((
                 format!("c11-p{p}-{}", comp.name()),
                 Logical {
@@ -95,11 +117,16 @@ fn containers(seed: u64, tier: Tier) -> Vec<(String, Logical)> {
                     },
                     dedup: false,
                     aux_seed: rng.next_u64(),
+                    opts: Default::default(),
                 },
             ));
         }
     }
     out
+}
+
+fn contents_clone(c: &[ContentSpec]) -> Vec<ContentSpec> {
+    c.to_vec()
 }
 
 fn cases_for(n_packs: u16, seed: u64) -> Vec<Case> {
@@ -168,6 +195,8 @@ struct Image {
     pristine: Dump,
     spec: DumpSpec,
     foreign: Vec<u8>,
+    /// all packs live inside the entry file (concat): nothing at a recorded location matters
+    embedded: bool,
 }
 
 fn apply_fault(dir: &Path, img: &Image, case: &Case) {
@@ -177,6 +206,16 @@ fn apply_fault(dir: &Path, img: &Image, case: &Case) {
         }
         let name = &img.pack_file[&p];
         let path = dir.join(name);
+        if img.embedded {
+            // the recorded location of an embedded pack: leave it empty, put a directory there, or
+            // a different valid pack (a stale file)
+            match case.kind {
+                Kind::Removed | Kind::Renamed => {}
+                Kind::Directory => std::fs::create_dir_all(&path).unwrap(),
+                Kind::OtherPack => std::fs::write(&path, &img.foreign).unwrap(),
+            }
+            continue;
+        }
         match case.kind {
             Kind::Removed => {
                 let _ = std::fs::remove_file(&path);
@@ -232,7 +271,19 @@ fn run_case(dir: &Path, img: &Image, case: &Case) -> Vec<String> {
     for (n, b) in &img.files {
         std::fs::write(dir.join(n), b).unwrap();
     }
-    if case.damaged != 0 {
+    if case.damaged != 0 && img.embedded {
+        let want = img.pristine.get(&format!("pack[{}]/uuid", case.damaged)).map(|l| l.short());
+        let name = &img.files[0].0;
+        let mut b = std::fs::read(dir.join(name)).unwrap();
+        let spans = simcore::layout::scan_file(&b);
+        let span = spans
+            .iter()
+            .find(|s| s.kind == b'c' && want == Some(format!("={}", uuid::Uuid::from_bytes(s.uuid))))
+            .unwrap_or_else(|| simcore::harness_error("C11: embedded pack not found by the scanner"));
+        let pos = (span.start + 130) as usize;
+        b[pos] ^= 0x5a;
+        std::fs::write(dir.join(name), b).unwrap();
+    } else if case.damaged != 0 {
         let name = &img.pack_file[&case.damaged];
         let mut b = std::fs::read(dir.join(name)).unwrap();
         // flip one byte of cluster data (just after the two 64-byte headers)
@@ -263,7 +314,7 @@ fn run_case(dir: &Path, img: &Image, case: &Case) -> Vec<String> {
         }
         apply_fault(dir, img, case);
     }
-    let missing = |p: u16| case.subset & (1 << (p - 1)) != 0;
+    let missing = |p: u16| !img.embedded && case.subset & (1 << (p - 1)) != 0;
     for &ci in &order {
         let c = &img.model.contents[ci];
         let addr = jubako::ContentAddress::new(c.pack.into(), c.content_id.into());
@@ -396,11 +447,17 @@ pub fn worker_main(args: &Args, w: usize, n: usize) -> ! {
                 )
             })
             .collect();
-        let pack_file = built
-            .pack_files
-            .iter()
-            .map(|(k, v)| (*k, v.file_name().unwrap().to_string_lossy().to_string()))
-            .collect();
+        let embedded = logical.packaging == Packaging::Concat;
+        let pack_file: BTreeMap<u16, String> = if embedded {
+            // the locations recorded in the manifest are the names the loose files had
+            (1..=logical.n_packs).map(|p| (p, format!("{name}.c{p}.jbkc"))).collect()
+        } else {
+            built
+                .pack_files
+                .iter()
+                .map(|(k, v)| (*k, v.file_name().unwrap().to_string_lossy().to_string()))
+                .collect()
+        };
         let img = Image {
             name: name.clone(),
             desc: gen::describe(&logical),
@@ -410,6 +467,7 @@ pub fn worker_main(args: &Args, w: usize, n: usize) -> ! {
             model: built.model,
             pristine,
             foreign: foreign.clone(),
+            embedded,
         };
         let cases = cases_for(img.model.n_packs, simcore::prng::hash_label(args.seed, &name, 0));
         let total = cases.len() as u64;
